@@ -7,7 +7,8 @@ C05 — TCP (MBAP) ADU round trip for DECODED values.
 Props/C05Full.lean proves the round trip for values built through the public constructors.  A user
 also obtains values by decoding — a gateway decodes a PDU received on one transport and re-encodes the
 value for another.  Such values need not be normal: a register response decoded from an odd byte count
-keeps the extra byte in its `data` while `quantity = byte_count / 2`; a decoded coil response has
+has `quantity = byte_count / 2` (the decoder keeps the whole registers only, so `data` holds exactly
+`2 · quantity` bytes and the dangling byte is not re-encoded); a decoded coil response has
 quantity = 8 × byte count; a decoded write-multiple-coils request keeps every byte after the header
 (`bytes[6..]`) whatever its byte-count field said.  Here: for EVERY byte string `b` and every value `v`
 with `Response.decode b = .ok v` / `Request.decode b = .ok v`,
@@ -16,8 +17,9 @@ with `Response.decode b = .ok v` / `Request.decode b = .ok v`,
   `pduLen + 7` (`v.pduLen = .ok v.image.length`);
 * the bytes written are `Spec.tcpFrame tid uid v.image`;
 * decoding them (or the whole output buffer) returns the same transaction id, the same unit id and a
-  value `v'` with the same meaning, `v'.sem = v.sem` (normalisation: the odd byte / the surplus
-  payload bytes are dropped by the encoder).
+  value `v'` with the same meaning, `v'.sem = v.sem` (normalisation: surplus payload bytes of a
+  write-multiple-coils request are dropped by the encoder); for responses the very same value `v`
+  comes back (`rsp_decoded_tcp_roundtrip_exact_partial`).
 
 What is covered (`Response.Decoded.kinds`, `Request.Decoded.kinds` list what the decoders return):
 
@@ -73,6 +75,22 @@ theorem rsp_decoded_tcp_roundtrip_partial (b : Bytes) (v : Response) (h : Respon
   obtain ⟨he, hp, hc, h257, hx, v', hd, hs⟩ := rsp_decoded_facts b v h hk
   obtain ⟨out, h1, h2, h3, h4⟩ := C05.tcp_rsp_encode_decode tid uid v v' buf he hl hc (by omega) hx hd
   exact ⟨_, out, v', h1, hp, rfl, h2, h3, h4, hs⟩
+
+/-- … and it is the very same value that comes back: a decoded response holds whole registers / whole
+    bytes only, so its image decodes to itself (`Response.Decoded.redecode_exact`) -/
+theorem rsp_decoded_tcp_roundtrip_exact_partial (b : Bytes) (v : Response) (h : Response.decode b = .ok v)
+    (hk : v.Frameable)
+    (tid : UInt16) (uid : UInt8) (buf : Bytes) (hl : v.image.length + 7 ≤ buf.length) :
+    Response.decode v.image = .ok v ∧
+    ∃ n out, Tcp.encodeResponse tid uid (.ok v) buf = .ok (n, out) ∧
+      n = v.image.length + 7 ∧
+      out.take n = Spec.tcpFrame tid uid v.image ∧
+      Tcp.decodeResponse (out.take n) = .ok (some (tid, uid, .ok v)) ∧
+      Tcp.decodeResponse out = .ok (some (tid, uid, .ok v)) := by
+  obtain ⟨he, _, hc, h257, hx, _⟩ := rsp_decoded_facts b v h hk
+  have hd := (Response.decode_inv h).redecode_exact
+  obtain ⟨out, h1, h2, h3, h4⟩ := C05.tcp_rsp_encode_decode tid uid v v buf he hl hc (by omega) hx hd
+  exact ⟨hd, _, out, h1, rfl, h2, h3, h4⟩
 
 /-- a 264-byte buffer is always large enough (a decoded frameable response has at most 257 PDU bytes) -/
 theorem rsp_decoded_tcp_roundtrip_264_partial (b : Bytes) (v : Response) (h : Response.decode b = .ok v)
@@ -162,17 +180,17 @@ theorem rsp_custom_needs_complete_witness :
   refine ⟨by decide +kernel, ?_, by decide +kernel, by decide +kernel⟩
   unfold Spec.PduComplete; decide +kernel
 
-/-! non-vacuity: a register response with an ODD byte count (the stray byte 0xEF is kept in `data`,
-    dropped by the encoder), a coil response (quantity 8 × byte count), a complete custom PDU -/
-example : Response.decode [0x03, 0x03, 0xAB, 0xCD, 0xEF] = .ok (.readHoldingRegisters ⟨[0xAB, 0xCD, 0xEF], 1⟩) ∧
-    (Response.readHoldingRegisters ⟨[0xAB, 0xCD, 0xEF], 1⟩).Frameable := ⟨by decide +kernel, trivial⟩
-example : ∃ n out v', Tcp.encodeResponse 0x0102 9 (.ok (.readHoldingRegisters ⟨[0xAB, 0xCD, 0xEF], 1⟩))
+/-! non-vacuity: a register response with an ODD byte count (the stray byte 0xEF is not part of the decoded
+    value), a coil response (quantity 8 × byte count), a complete custom PDU -/
+example : Response.decode [0x03, 0x03, 0xAB, 0xCD, 0xEF] = .ok (.readHoldingRegisters ⟨[0xAB, 0xCD], 1⟩) ∧
+    (Response.readHoldingRegisters ⟨[0xAB, 0xCD], 1⟩).Frameable := ⟨by decide +kernel, trivial⟩
+example : ∃ n out v', Tcp.encodeResponse 0x0102 9 (.ok (.readHoldingRegisters ⟨[0xAB, 0xCD], 1⟩))
       (List.replicate 16 0x55) = .ok (n, out) ∧ n = 11 ∧
     out.take n = [0x01, 0x02, 0, 0, 0, 5, 9, 0x03, 0x02, 0xAB, 0xCD] ∧
     Tcp.decodeResponse (out.take n) = .ok (some (0x0102, 9, .ok v')) ∧
     v'.sem = some (.readHoldingRegisters [0xABCD]) := by
   obtain ⟨n, out, v', h1, _, h3, h4, h5, _, h7⟩ := rsp_decoded_tcp_roundtrip_partial
-    [0x03, 0x03, 0xAB, 0xCD, 0xEF] (.readHoldingRegisters ⟨[0xAB, 0xCD, 0xEF], 1⟩) (by decide +kernel) trivial
+    [0x03, 0x03, 0xAB, 0xCD, 0xEF] (.readHoldingRegisters ⟨[0xAB, 0xCD], 1⟩) (by decide +kernel) trivial
     0x0102 9 (List.replicate 16 0x55) (by decide +kernel)
   refine ⟨n, out, v', h1, by rw [h3]; decide +kernel, ?_, h5, ?_⟩
   · rw [h4]; decide +kernel
